@@ -99,3 +99,45 @@ theorem lowerExprSequence_singleton (e : A) (k : SK) (hk : e.kind = some k) : lo
   split <;> simp
 
 end Mimium.Lower
+
+namespace Mimium.Lower
+
+/-! ## The recursion of the port is one pass over the tree -/
+
+mutual
+/-- number of nodes (internal nodes and token leaves) of a resolved tree -/
+def T.size : T → Nat
+  | .leaf _ => 1
+  | .node _ cs => 1 + T.sizeL cs
+def T.sizeL : List T → Nat
+  | [] => 0
+  | c :: cs => c.size + T.sizeL cs
+end
+
+mutual
+/-- number of attributed nodes = number of evaluations of `mkA` (of each attribute function) -/
+def A.size : A → Nat
+  | .mk _ _ cs _ => 1 + A.sizeL cs
+def A.sizeL : List A → Nat
+  | [] => 0
+  | c :: cs => c.size + A.sizeL cs
+end
+
+open Mimium.Gen (SK) in
+theorem mkA_size (kind : Option SK) (leaf : Option Leaf) (cs : List A) : (mkA kind leaf cs).size = 1 + A.sizeL cs := by
+  simp [mkA, A.size]
+
+mutual
+theorem attr_size : ∀ t : T, (attr t).size = t.size
+  | .leaf l => by simp [attr, mkA_size, A.sizeL, T.size]
+  | .node k cs => by simp [attr, mkA_size, T.size, attrL_size cs]
+theorem attrL_size : ∀ ts : List T, A.sizeL (attrL ts) = T.sizeL ts
+  | [] => by simp [attrL, A.sizeL, T.sizeL]
+  | t :: ts => by simp [attrL, A.sizeL, T.sizeL, attr_size t, attrL_size ts]
+end
+
+theorem attrL_eq_map : ∀ ts : List T, attrL ts = ts.map attr
+  | [] => by simp [attrL]
+  | t :: ts => by simp [attrL, attrL_eq_map ts]
+
+end Mimium.Lower
